@@ -61,7 +61,7 @@ def run(ctx):
     ctx.rule("earlyexit", "cone apex/generators pairwise non-obtuse in every conforming reciprocal metric")
     ctx.rule("expand", "genhkl_all: Rots = rot[:nuniq] and negatives, dot(hkl_row, R), stl copied, unique() de-duplication")
     ctx.rule("rsetting", "hexagonal table conjugated by the obverse transformation == rhombohedral table (7 R groups)")
-    ctx.rule("model", "slot model and schedules extracted identically from tools and laue")
+    ctx.rule("model", "slot model, schedules and cone tables are extracted from both modules; analysed once when identical, else per module")
     Nbox = 8 if ctx.tier == "quick" else 24
     sgl = core.module("xfab/sglib.py")
     ctx.saw(sgl)
@@ -77,66 +77,71 @@ def run(ctx):
         models[short] = (ops, sched, seg)
         ctx.floor("%s condition slots" % short, len({o[1] for o in ops}), 26)
         ctx.floor("%s cone tables" % short, len(seg), 14)
-    ctx.check(models["tools"][0] == models["laue"][0] and models["tools"][1] == models["laue"][1]
-              and [(t["guard"], t["table"]) for t in models["tools"][2]] == [(t["guard"], t["table"]) for t in models["laue"][2]],
-              "C05:model:tools==laue", "slot model / permutation schedules / cone tables differ between tools and laue",
-              "xfab/tools.py / xfab/laue.py", sample={"slots": len(models["tools"][0]), "schedules": {k: v for k, v in models["tools"][1].items()}})
-    model_ops, schedules, segm = models["tools"]
-    # ---- syscond vs operators, per setting
-    jobs = []
-    by_key = {}
-    for s in settings:
-        if len(s.syscond) != 26:
-            ctx.fail("C05:syscond:%s:length" % s.key, "syscond has %d entries" % len(s.syscond), "%s:%d" % (sgl.rel, s.lines.get("syscond", 0)))
-            continue
-        hits = tables.select_segm(segm, s.Laue, s.cell_choice)
-        if len(hits) != 1:
-            # dispatch problems are C06's rule; here the setting cannot be analysed
-            ctx.fail("C05:syscond:%s:cones" % s.key, "Laue class %r / cell_choice %r selects %d cone tables" % (s.Laue, s.cell_choice, len(hits)),
-                     "%s:%d" % (sgl.rel, s.lines.get("Laue", 0)))
-            continue
-        by_key[s.key] = s
-        jobs.append((s.key, tuple(s.syscond), s.crystal_system, s.cell_choice, H.int_ops(s), hits[0]["table"], Nbox))
-    nproc = min(16, os.cpu_count() or 1)
-    with Pool(nproc, initializer=init_pool, initargs=((model_ops, schedules),)) as pool:
-        results = pool.map(_setting_job, jobs, chunksize=4)
+    def sched_key(a):
+        return [(d, perms) for d, _t, perms in a]
+    same_model = (models["tools"][0] == models["laue"][0] and sched_key(models["tools"][1]) == sched_key(models["laue"][1])
+                  and [(t["guard"], t["table"]) for t in models["tools"][2]] == [(t["guard"], t["table"]) for t in models["laue"][2]])
     total_pts = 0
-    for key, npts, nabs, missing, extra in results:
-        s = by_key[key]
-        total_pts += npts
-        where = "%s:%d" % (sgl.rel, s.lines.get("syscond", 0))
-        msg = ""
-        if missing:
-            msg += "allowed reflections declared absent, e.g. %s; " % missing[:3]
-        if extra:
-            msg += "reflections extinguished by the group's own operations are accepted, e.g. %s" % extra[:3]
-        ctx.check(not missing and not extra, "C05:syscond:%s" % key, "%s (%s, syscond %s)" % (msg, s.name, [i for i, c in enumerate(s.syscond) if c]),
-                  where, sample={"setting": key, "name": s.name, "cone_points": npts, "extinct": nabs} if key in ("Sg227:standard", "Sg167:rhombohedral", "Sg14:standard") else None)
-    ctx.extra["box"] = Nbox
-    ctx.extra["cone_points_checked"] = total_pts
-    # ---- early-exit precondition per (Laue, cell_choice, crystal system)
-    combos = {}
-    for s in settings:
-        combos.setdefault((s.Laue, s.cell_choice, s.crystal_system), s)
-    for (laue, cc, csys), s in sorted(combos.items()):
-        hits = tables.select_segm(segm, laue, cc)
-        if len(hits) != 1:
-            continue
-        fam = H.metric_family(csys, cc)
-        for ci, rows in enumerate(hits[0]["table"]):
-            vecs = [tuple(r) for r in rows]
-            labels = ["apex", "g1", "g2", "g3"]
-            for a in range(4):
-                for b in range(a + 1, 4):
-                    u, v = vecs[a], vecs[b]
-                    if not any(u) or not any(v):
-                        continue
-                    ok = H.nonobtuse(u, v, fam)
-                    key = "C05:earlyexit:%s:%s:cone%d:%s.%s" % (laue, "rhombohedral" if cc == "rhombohedral" else "standard", ci, labels[a], labels[b])
-                    ctx.check(ok, key,
-                              "%s %s and %s %s of cone %d can be obtuse in a conforming %s reciprocal metric: the walk stops at the "
-                              "first point beyond sintlmax although later points of the row/plane come back inside the shell"
-                              % (labels[a], u, labels[b], v, ci, fam), "xfab/tools.py:%d" % hits[0]["line"])
+    jobs = []
+    todo = [("tools", "xfab/tools.py", "")] if same_model else [("tools", "xfab/tools.py", ""), ("laue", "xfab/laue.py", ":laue")]
+    if same_model:
+        ctx.note("slot model, schedules and cone tables of laue are identical to those of tools: the table verdicts hold for both")
+    for which, relname, sfx in todo:
+        model_ops, schedules, segm = models[which]
+        # ---- syscond vs operators, per setting
+        jobs = []
+        by_key = {}
+        for s in settings:
+            if len(s.syscond) != 26:
+                ctx.fail("C05:syscond:%s:length%s" % (s.key, sfx), "syscond has %d entries" % len(s.syscond), "%s:%d" % (sgl.rel, s.lines.get("syscond", 0)))
+                continue
+            hits = tables.select_segm(segm, s.Laue, s.cell_choice)
+            if len(hits) != 1:
+                # dispatch problems are C06's rule; here the setting cannot be analysed
+                ctx.fail("C05:syscond:%s:cones%s" % (s.key, sfx), "Laue class %r / cell_choice %r selects %d cone tables" % (s.Laue, s.cell_choice, len(hits)),
+                         "%s:%d" % (sgl.rel, s.lines.get("Laue", 0)))
+                continue
+            by_key[s.key] = s
+            jobs.append((s.key, tuple(s.syscond), s.crystal_system, s.cell_choice, H.int_ops(s), hits[0]["table"], Nbox))
+        nproc = min(16, os.cpu_count() or 1)
+        with Pool(nproc, initializer=init_pool, initargs=((model_ops, schedules),)) as pool:
+            results = pool.map(_setting_job, jobs, chunksize=4)
+        for key, npts, nabs, missing, extra in results:
+            s = by_key[key]
+            total_pts += npts
+            where = "%s:%d" % (sgl.rel, s.lines.get("syscond", 0))
+            msg = ""
+            if missing:
+                msg += "allowed reflections declared absent, e.g. %s; " % missing[:3]
+            if extra:
+                msg += "reflections extinguished by the group's own operations are accepted, e.g. %s" % extra[:3]
+            ctx.check(not missing and not extra, "C05:syscond:%s%s" % (key, sfx), "%s (%s, syscond %s)" % (msg, s.name, [i for i, c in enumerate(s.syscond) if c]),
+                      where, sample={"setting": key, "name": s.name, "cone_points": npts, "extinct": nabs} if key in ("Sg227:standard", "Sg167:rhombohedral", "Sg14:standard") else None)
+        ctx.extra["box"] = Nbox
+        ctx.extra["cone_points_checked"] = total_pts
+        # ---- early-exit precondition per (Laue, cell_choice, crystal system)
+        combos = {}
+        for s in settings:
+            combos.setdefault((s.Laue, s.cell_choice, s.crystal_system), s)
+        for (laue, cc, csys), s in sorted(combos.items()):
+            hits = tables.select_segm(segm, laue, cc)
+            if len(hits) != 1:
+                continue
+            fam = H.metric_family(csys, cc)
+            for ci, rows in enumerate(hits[0]["table"]):
+                vecs = [tuple(r) for r in rows]
+                labels = ["apex", "g1", "g2", "g3"]
+                for a in range(4):
+                    for b in range(a + 1, 4):
+                        u, v = vecs[a], vecs[b]
+                        if not any(u) or not any(v):
+                            continue
+                        ok = H.nonobtuse(u, v, fam)
+                        key = "C05:earlyexit:%s:%s:cone%d:%s.%s%s" % (laue, "rhombohedral" if cc == "rhombohedral" else "standard", ci, labels[a], labels[b], sfx)
+                        ctx.check(ok, key,
+                                  "%s %s and %s %s of cone %d can be obtuse in a conforming %s reciprocal metric: the walk stops at the "
+                                  "first point beyond sintlmax although later points of the row/plane come back inside the shell"
+                                  % (labels[a], u, labels[b], v, ci, fam), "%s:%d" % (relname, hits[0]["line"]))
     # the stopping tests themselves
     for rel, short, _tp in N.MODULES:
         mod = core.module(rel)
